@@ -21,7 +21,6 @@ package fuzz
 
 import (
 	"fmt"
-	"os"
 	"strings"
 	"testing"
 
@@ -50,43 +49,11 @@ var c26Muts = []string{"bad_slot", "bad_parent_root", "bad_extrinsic_hash", "bad
 	"author_out_of_range", "unsorted_tickets", "unsorted_preimages", "unneeded_preimage", "epoch_mark", "tickets_mark",
 	"offenders_mark", "dup_ticket", "bad_ticket_attempt", "bad_ticket_proof"}
 
-func cbGenGenesis(rt *rapid.T) cbGenesis {
-	g := cbGenesis{Seed: rapid.Uint32Range(0, 1<<20).Draw(rt, "seed")}
-	g.Tau = uint32(rapid.OneOf(rapid.Just(0), rapid.IntRange(0, 11), rapid.IntRange(12, 40)).Draw(rt, "tau"))
-	perm := rapid.Permutation([]int{0, 1, 2, 3, 4, 5, 6, 7, 8, 9, 10, 11}).Draw(rt, "idents")
-	mode := rapid.IntRange(0, 3).Draw(rt, "sets")
-	switch mode {
-	case 0: // one validator set everywhere
-		g.Kappa, g.GammaK, g.Iota, g.Lambda = perm[:6], perm[:6], perm[:6], perm[:6]
-	case 1: // a different set queued
-		g.Kappa, g.GammaK, g.Iota, g.Lambda = perm[:6], perm[:6], perm[6:], perm[:6]
-	case 2: // overlapping sets
-		g.Kappa, g.GammaK, g.Iota, g.Lambda = perm[:6], perm[3:9], perm[6:], perm[2:8]
-	default: // same members, rotated positions
-		g.Kappa, g.GammaK, g.Iota, g.Lambda = perm[:6], append(append([]int{}, perm[2:6]...), perm[:2]...), perm[:6], perm[:6]
-	}
-	g.Offender = -1
-	if rapid.IntRange(0, 4).Draw(rt, "with_offender") == 0 {
-		g.Offender = g.Iota[rapid.IntRange(0, 5).Draw(rt, "offender")]
-	}
-	g.Ancestry = rapid.IntRange(0, 3).Draw(rt, "ancestry") == 0
-	return g
-}
-
-func cbGenTickets(rt *rapid.T, max int) []cbTicketSpec {
-	n := rapid.IntRange(0, max).Draw(rt, "ntickets")
-	var out []cbTicketSpec
-	for i := 0; i < n; i++ {
-		out = append(out, cbTicketSpec{Pos: rapid.IntRange(0, cbV-1).Draw(rt, "pos"), Attempt: rapid.IntRange(0, cbN-1).Draw(rt, "att")})
-	}
-	return out
-}
-
 func c26Gen(rt *rapid.T) c26Input {
 	in := c26Input{Genesis: cbGenGenesis(rt)}
-	n := rapid.OneOf(rapid.IntRange(3, 12), rapid.IntRange(10, 40)).Draw(rt, "nsteps")
+	n := rapid.OneOf(rapid.IntRange(3, 12), rapid.IntRange(10, c26MaxSteps)).Draw(rt, "nsteps")
 	kinds := []string{"child", "child", "child", "child", "child", "child", "child", "child",
-		"invalid", "invalid", "invalid", "invalid", "retry", "retry", "sibling", "fork", "fork", "dup", "orphan"}
+		"invalid", "invalid", "invalid", "invalid_fork", "retry", "retry", "sibling", "fork", "fork", "dup", "orphan"}
 	for i := 0; i < n; i++ {
 		st := c26Step{Kind: rapid.SampledFrom(kinds).Draw(rt, "kind")}
 		st.Gap = rapid.OneOf(rapid.Just(1), rapid.Just(1), rapid.IntRange(1, 3), rapid.IntRange(1, 14), rapid.IntRange(10, 30)).Draw(rt, "gap")
@@ -100,7 +67,10 @@ func c26Gen(rt *rapid.T) c26Input {
 			}
 		}
 		switch st.Kind {
-		case "invalid":
+		case "invalid", "invalid_fork":
+			if st.Kind == "invalid_fork" {
+				st.Back = rapid.IntRange(0, 4).Draw(rt, "back")
+			}
 			st.Mut = rapid.SampledFrom(c26Muts).Draw(rt, "mut")
 			st.MutArg = rapid.IntRange(0, 4095).Draw(rt, "mut_arg")
 			if st.Mut == "unsorted_tickets" && len(st.Tickets) < 2 {
@@ -142,34 +112,11 @@ type c26Ev struct { // what node A was given at one step
 	Dirty      bool // the previous import on A was a rejection
 	OffHead    bool // the block's parent field is not the hash of A's head at that time
 	HeadDup    bool // the block IS A's head at that time (same header hash), imported again
+	ParentDupPruned bool // KF-C26-3 follow-up, see c26DupPruned
 	HeadRoot   types.StateRoot
 }
 
-func cbCloneBlock(b types.Block) types.Block {
-	o := b
-	if b.Header.EpochMark != nil {
-		em := *b.Header.EpochMark
-		em.Validators = append([]types.EpochMarkValidatorKeys(nil), em.Validators...)
-		o.Header.EpochMark = &em
-	}
-	if b.Header.TicketsMark != nil {
-		tm := append(types.TicketsMark(nil), (*b.Header.TicketsMark)...)
-		o.Header.TicketsMark = &tm
-	}
-	o.Header.OffendersMark = append(types.OffendersMark{}, b.Header.OffendersMark...)
-	o.Extrinsic.Tickets = append(types.TicketsExtrinsic(nil), b.Extrinsic.Tickets...)
-	o.Extrinsic.Preimages = nil
-	for _, p := range b.Extrinsic.Preimages {
-		o.Extrinsic.Preimages = append(o.Extrinsic.Preimages, types.Preimage{Requester: p.Requester, Blob: append(types.ByteSequence(nil), p.Blob...)})
-	}
-	return o
-}
-
-func cbImport(n *cbNode, b types.Block) (root types.StateRoot, err error) {
-	return n.svc.ImportBlock(cbCloneBlock(b))
-}
-
-var cbDebug = os.Getenv("VERIF_CB_DEBUG") != ""
+var c26MaxSteps = 40
 
 const c26Retain = 18 // fork targets stay well inside the 24-block fuzz-mode history
 
@@ -215,13 +162,17 @@ func c26Check(c *kit.Case, in c26Input) {
 			} else {
 				parent = acc[head].Parent
 			}
-		case "fork":
+		case "fork", "invalid_fork":
 			p := head
 			for i := 0; i < st.Back+1 && acc[p].Parent >= 0; i++ {
 				p = acc[p].Parent
 			}
 			if p == head || p < len(acc)-c26Retain {
-				kind = "child"
+				if kind == "fork" {
+					kind = "child"
+				} else {
+					kind = "invalid"
+				}
 			} else {
 				parent = p
 			}
@@ -238,6 +189,9 @@ func c26Check(c *kit.Case, in c26Input) {
 				kind = "child"
 			}
 		case "child", "invalid":
+			if kind == "invalid" && st.Mut == "" {
+				return // malformed replay
+			}
 		default:
 			return // unknown kind in a replay file
 		}
@@ -255,7 +209,7 @@ func c26Check(c *kit.Case, in c26Input) {
 				gap = 1
 			}
 			spec := cbAuthorSpec{Slot: pv.Tau + uint32(gap), Tickets: st.Tickets, Preimages: st.Pre, Parent: acc[parent].Hash, Root: acc[parent].Root}
-			if kind == "invalid" {
+			if kind == "invalid" || kind == "invalid_fork" {
 				spec.Mut, spec.MutArg = st.Mut, st.MutArg
 				switch st.Mut {
 				case "dup_ticket":
@@ -291,6 +245,7 @@ func c26Check(c *kit.Case, in c26Input) {
 		}
 
 		ev.OffHead = ev.Block.Header.Parent != acc[head].Hash
+		ev.ParentDupPruned = c26DupPruned(acc, parent)
 		ev.HeadDup, ev.HeadRoot = head > 0 && ev.Hash == acc[head].Hash, acc[head].Root
 		if ev.HeadDup {
 			kind, ev.Kind = "dup", "dup"
@@ -345,9 +300,18 @@ func c26Check(c *kit.Case, in c26Input) {
 			dirty = true
 			e := ev
 			lastRej = &e
+			// a block that was never accepted must not have left a queryable state behind
+			if !c26WasAccepted(acc, ev.Hash) {
+				if kvs, err := A.svc.GetState(ev.Hash); err == nil {
+					c.Failf("step %d (%s rejected: %s): GetState(hash of the rejected block) answers with %d key-values", si, label, ev.Err, len(kvs))
+				}
+			}
 			// (i) the head's state is unchanged
 			for _, idx := range []int{head, parent} {
 				kvs, err := A.svc.GetState(acc[idx].Hash)
+				if err != nil && c26DupPruned(acc, idx) {
+					c.Known("KF-C26-3", fmt.Sprintf("step %d: follow-up: the head block re-accepted after a rejection is recorded twice; when its first record leaves the 24-block window PruneOldData deletes the state (by root) and the block although the second record is still inside: GetState(%s) fails: %v", si, c26Which(idx, head), err))
+				}
 				if err != nil {
 					c.Failf("step %d (%s rejected: %s): GetState(%s) now fails: %v", si, label, ev.Err, c26Which(idx, head), err)
 				}
@@ -442,7 +406,8 @@ func c26Check(c *kit.Case, in c26Input) {
 	// ---------------- probes: a block A rejected while dirty, on a node that never saw the earlier rejection ----------------
 	probes := 0
 	for _, ev := range evs {
-		if ev.Accepted || !ev.Dirty || probes >= 3 {
+		authoredValid := ev.Mut == "" && (ev.Kind == "child" || ev.Kind == "sibling" || ev.Kind == "fork")
+		if ev.Accepted || !(ev.Dirty || authoredValid) || probes >= 4 {
 			continue
 		}
 		probes++
@@ -467,17 +432,31 @@ func c26Check(c *kit.Case, in c26Input) {
 			}
 		}
 		_, perr := cbImport(P, ev.Block)
+		if perr == nil && ev.ParentDupPruned && strings.Contains(ev.Err, "failed to restore") {
+			c.Known("KF-C26-3", fmt.Sprintf("step %d: follow-up: node A can no longer fork from a block inside the 24-block window because the block was re-accepted after a rejection, recorded twice and pruned with its first record (%s); a clean node accepts the fork", ev.Step, ev.Err))
+		}
 		if perr == nil {
-			c.Failf("step %d (%s %s): node A rejected the block (%s) right after another rejection, a fresh node that saw only the accepted blocks accepts it",
+			c.Failf("step %d (%s %s): node A, which has seen rejected blocks, rejected the block (%s); a fresh node that saw only the accepted blocks accepts it",
 				ev.Step, ev.Kind, ev.Mut, ev.Err)
 		}
 		if perr.Error() != ev.Err {
 			c.Class("dirty_reject_error_differs")
 			if ev.Kind == "retry" {
 				c.Class("retry_error_differs:" + c26ErrClass(perr.Error()) + "->" + c26ErrClass(ev.Err))
+				if ev.Err == "invalid parent state root" && !strings.Contains(perr.Error(), "restore") && !strings.Contains(perr.Error(), "finalized") {
+					// verdict preserved (both reject) but the reason changes: the first attempt wrote
+					// H_r into the head's in-memory beta (History2HistoryDagger shares the slice) and the
+					// retry is not restored, so the head state no longer hashes to the parent state root
+					c.KnownNote("KF-C26-4", fmt.Sprintf("step %d: the block is rejected with %q by a node that sees it for the first time and with %q when node A is given it a second time in a row",
+						ev.Step, perr.Error(), ev.Err))
+				}
 			}
 		}
-		c.Class("probed_dirty_rejection")
+		if ev.Dirty {
+			c.Class("probed_dirty_rejection")
+		} else {
+			c.Class("probed_rejected_valid_block")
+		}
 	}
 }
 
@@ -493,6 +472,26 @@ func c26RejectedOffHeadBefore(evs []c26Ev, step int) bool {
 	return false
 }
 
+// c26DupPruned: the accepted block idx has an earlier accepted record with the same hash
+// (possible only through KF-C26-3) that has left the node's 24-entry pruning window.
+func c26DupPruned(acc []c26Acc, idx int) bool {
+	for j := 1; j < idx && j <= len(acc)-1-24; j++ {
+		if acc[j].Hash == acc[idx].Hash {
+			return true
+		}
+	}
+	return false
+}
+
+func c26WasAccepted(acc []c26Acc, h types.HeaderHash) bool {
+	for _, a := range acc {
+		if a.Hash == h {
+			return true
+		}
+	}
+	return false
+}
+
 func c26Which(idx, head int) string {
 	if idx == head {
 		return "head"
@@ -501,8 +500,23 @@ func c26Which(idx, head int) string {
 }
 
 func c26ErrClass(s string) string {
-	if len(s) > 48 {
-		s = s[:48]
+	// drop hex digests so that the class names are stable
+	var b strings.Builder
+	for i := 0; i < len(s); i++ {
+		if s[i] == '0' && i+1 < len(s) && s[i+1] == 'x' {
+			i += 2
+			for i < len(s) && (s[i] >= '0' && s[i] <= '9' || s[i] >= 'a' && s[i] <= 'f' || s[i] == '.') {
+				i++
+			}
+			b.WriteString("#")
+			i--
+			continue
+		}
+		b.WriteByte(s[i])
+	}
+	s = b.String()
+	if len(s) > 56 {
+		s = s[:56]
 	}
 	return strings.ReplaceAll(s, " ", "_")
 }
@@ -512,5 +526,8 @@ func TestVerif_C26(t *testing.T) {
 	defer s.Finish()
 	s.EnableSentinel()
 	logger.Disable()
-	kit.Run(s, "import_atomic_differential", kit.N{Quick: 1200, Thorough: 40000}, c26Gen, c26Check)
+	if s.Thorough() {
+		c26MaxSteps = 60
+	}
+	kit.Run(s, "import_atomic_differential", kit.N{Quick: 2000, Thorough: 40000}, c26Gen, c26Check)
 }
